@@ -105,6 +105,80 @@ theorem no_frame_beyond_1025 (cx : Ctx) (fuel : Nat) (ro : Bool) (fr : Frame) (k
   unfold doInvoke
   exact depth_limit_call _ _ _ _ _ _ _ _ _ _ _ _ (by omega)
 
+/-! ## read-only context -/
+
+/-- **write_in_static_faults.** In a read-only frame, an operation that gets past the validation
+    is not flagged `writes` and is not a CALL with value: every flagged operation and every
+    value-bearing CALL ends the frame with `ErrWriteProtection` (or an earlier ordinary fault). -/
+theorem write_in_static_faults (cx : Ctx) (fr : Frame) (g : Global) (info : OpInfo) (fr1 : Frame)
+    (args : List Word) (g1 : Global) (cgt : Nat) (h : stepPre cx true fr g = .ok info fr1 args g1 cgt) :
+    info.writes = false ∧ ¬ ((fr.code.getD fr.pc 0).toNat = 0xf1 ∧ back fr.stack 2 ≠ 0) := by
+  unfold stepPre at h
+  simp only at h
+  split at h
+  · cases h
+  · rename_i info' hent
+    split at h
+    · cases h
+    · split at h
+      · cases h
+      · split at h
+        · cases h
+        · rename_i hro
+          have hinfo : info' = info := by
+            repeat' split at h
+            all_goals (first | (cases h; done) | (cases h; rfl))
+          subst hinfo
+          simp only [true_and, not_or] at hro
+          exact ⟨by simpa using hro.1, hro.2⟩
+
+/-- TSTORE tests the flag itself -/
+theorem tstore_in_static_faults (cx : Ctx) (fr : Frame) (loc val : Word) (g : Global) (cgt : Nat) :
+    execOp cx true .tstore fr [loc, val] g cgt = .fault .writeProtection g := by
+  simp [execOp]
+
+/-- **static_is_sticky.** The frames started from a read-only frame are read-only whatever the
+    call kind: `evm.Call/CallCode/DelegateCall/StaticCall`, `create` and `AuthCall` issued with
+    `ro = true` only ever consult the runner with `ro = true` (the Go code: `in.readOnly` is
+    set once by the first STATICCALL frame and reset only by that frame's deferred function,
+    pinned by the T-gen fact `Run.readOnlyEntry`). And a frame's own flag is a parameter of its
+    loop: no callee can change it (`runLoop` passes the same `ro` to every iteration). -/
+theorem static_is_sticky_call (run run' : Runner) (hrr : ∀ d fr g, run d true fr g = run' d true fr g)
+    (depth : Nat) (k : CallKind) (cs cc : Nat) (cv : Word)
+    (addr : Nat) (value : Word) (input : BA) (gas : Nat) (g : Global) :
+    evmCall run depth true k cs cc cv addr value input gas g = evmCall run' depth true k cs cc cv addr value input gas g := by
+  have hc : ∀ fr g, runContract run depth true fr g = runContract run' depth true fr g := by
+    intro fr g; unfold runContract; simp only [hrr]
+  unfold evmCall
+  simp only [hc]
+
+theorem static_is_sticky_create (cx : Ctx) (run run' : Runner) (hrr : ∀ d fr g, run d true fr g = run' d true fr g)
+    (depth : Nat) (cs : Nat) (salt : Option Word) (value : Word) (init : BA) (gas : Nat) (g : Global) :
+    evmCreate cx run depth true cs salt value init gas g = evmCreate cx run' depth true cs salt value init gas g := by
+  have hc : ∀ fr g, runContract run depth true fr g = runContract run' depth true fr g := by
+    intro fr g; unfold runContract; simp only [hrr]
+  unfold evmCreate
+  simp only [hc]
+
+theorem static_is_sticky_authcall (cx : Ctx) (run run' : Runner) (hrr : ∀ d fr g, run d true fr g = run' d true fr g)
+    (depth : Nat) (auth addr : Nat) (value : Word) (input : BA) (gas : Nat) (g : Global) :
+    evmAuthCall cx run depth true auth addr value input gas g = evmAuthCall cx run' depth true auth addr value input gas g := by
+  have hc : ∀ fr g, runContract run depth true fr g = runContract run' depth true fr g := by
+    intro fr g; unfold runContract; simp only [hrr]
+  unfold evmAuthCall
+  simp only [hc]
+
+/-- STATICCALL makes its callee read-only even from a writable frame -/
+theorem staticcall_enters_static (run run' : Runner) (hrr : ∀ d fr g, run d true fr g = run' d true fr g)
+    (depth : Nat) (ro : Bool) (cs cc : Nat) (cv : Word)
+    (addr : Nat) (value : Word) (input : BA) (gas : Nat) (g : Global) :
+    evmCall run depth ro .staticcall cs cc cv addr value input gas g
+      = evmCall run' depth ro .staticcall cs cc cv addr value input gas g := by
+  have hc : ∀ fr g, runContract run depth true fr g = runContract run' depth true fr g := by
+    intro fr g; unfold runContract; simp only [hrr]
+  unfold evmCall
+  simp only [hc]
+
 /-! ## faults are ordinary failed calls -/
 
 /-- the faults the property names (and the others the code can raise) -/
